@@ -81,6 +81,14 @@ func Replay(seed int64, prog Program, steps []Step) *RunResult {
 	tr.SetGated(replayGates...)
 	res.VerifHook = tr.Hook
 	defer func() { res.VerifHook = nil }()
+	// a behaviour without Shutdown is run without a Shutdown goroutine, so that exactly-once can be judged
+	hasSd := false
+	for _, st := range steps {
+		if st.Action == "SdCas" {
+			hasSd = true
+		}
+	}
+	prog.Shutdown = hasSd
 	sc := NewScenario(tr, prog)
 	out := &RunResult{}
 	sc.Start(0)
@@ -210,7 +218,7 @@ func finish(sc *Scenario, tr *Tracer, out *RunResult, sdDur chan time.Duration, 
 	}
 	if shutdowns < serves {
 		// the last life of the service is still running: stop it now
-		sc.StartShutdown(sdDur)
+		sc.StartCleanupShutdown(sdDur)
 	}
 	// wait for every role goroutine (producers, api, sd, serve)
 	doneCh := make(chan struct{})
